@@ -45,11 +45,11 @@ def crash_under_test(stderr_text):
                 break
             continue
         fn = line.strip()
-        if fn.startswith(("runtime.", "panic(", "runtime/", "sync.", "sync/", "internal/", "reflect.", "sort.", "slices.", "strings.", "container/")):
-            continue
+        if fn.startswith("main."):
+            return None             # the harness's own code is innermost: a harness bug, not a finding
         if REPO_FRAME.match(fn):
-            return m.group(1)
-        return None
+            return m.group(1)       # innermost frame of the repository (below it: runtime, stdlib or third-party code it called)
+        continue
     return None
 
 
